@@ -108,3 +108,15 @@ Theorem C02_generated_initial_state_is_the_model : forall st i,
   init_state st i = mkSim NotStarted (runner_progress (depth st i)) (init_nexts st i) None (runner_last_step (depth st i)) false.
 Proof. exact tie_initial_state. Qed.
 Print Assumptions C02_generated_initial_state_is_the_model.
+(* scheduler.notify_dependencies, regenerated loop by loop, is the scheduling part of the model's finish_step: for every
+   trigger port present in the reply and every simulator it triggers, the step output_time + delay is queued (through
+   schedule_step) iff it lies before until.  The ports the model's event carries are the keys of sim.triggers, in the dict's
+   order, that are present in the reply. *)
+Theorem C02_generated_notify_dependencies_is_the_model : forall st i ot produced ports_all s,
+  notify_dependencies (until st) (map (fun p => (p, trig st i p)) ports_all) produced ot s =
+  fold_left (fun s p => fold_left (fun s (dd : nat * interval) => let (dest, d) := dd in
+                 let tt := act ot d in
+                 if until st <=? thd tt then s else schedule s dest tt) (trig st i p) s)
+            (filter (fun p => existsb (Nat.eqb p) produced) ports_all) s.
+Proof. exact tie_notify_dependencies. Qed.
+Print Assumptions C02_generated_notify_dependencies_is_the_model.
